@@ -427,3 +427,50 @@ func (r *Run) debuggerFrame() {
 		r.FuncsUC = append(r.FuncsUC, "interp."+fnName)
 	}
 }
+
+// contextWatchers (C09): the three *WithContext entry points call stop exactly once on the
+// cancellation branch of their select and return the context's error from it.
+func (r *Run) contextWatchers() {
+	p := r.L.ByName["interp"]
+	for _, key := range []string{"Interpreter.EvalWithContext", "Interpreter.EvalPathWithContext", "Interpreter.ExecuteWithContext"} {
+		fd := r.L.FindFunc(p, key)
+		if fd == nil {
+			r.engineError("%s does not exist in the current tree", key)
+			continue
+		}
+		ok, got := false, "no select on ctx.Done()"
+		ast.Inspect(fd.Body, func(n ast.Node) bool {
+			sel, isSel := n.(*ast.SelectStmt)
+			if !isSel {
+				return true
+			}
+			for _, cl := range sel.Body.List {
+				cc := cl.(*ast.CommClause)
+				es, isExpr := cc.Comm.(*ast.ExprStmt)
+				if !isExpr || types.ExprString(es.X) != "<-ctx.Done()" {
+					continue
+				}
+				var parts []string
+				for _, s := range cc.Body {
+					switch s := s.(type) {
+					case *ast.ExprStmt:
+						parts = append(parts, types.ExprString(s.X))
+					case *ast.ReturnStmt:
+						var rs []string
+						for _, x := range s.Results {
+							rs = append(rs, types.ExprString(x))
+						}
+						parts = append(parts, "return "+strings.Join(rs, ", "))
+					default:
+						parts = append(parts, "?")
+					}
+				}
+				got = strings.Join(parts, "; ")
+				ok = len(parts) == 2 && parts[0] == "interp.stop()" && strings.HasPrefix(parts[1], "return ") && strings.HasSuffix(parts[1], ", ctx.Err()")
+			}
+			return true
+		})
+		r.frameObl("interp."+key+"/cancel:stop-then-ctx-err", "on cancellation "+key+" calls stop() once and returns the context's error", ok, got)
+		r.FuncsUC = append(r.FuncsUC, "interp."+key+" (cancellation branch)")
+	}
+}
